@@ -637,7 +637,7 @@ def parse_connection_path(path: str, auto_slot: bool = False) -> Tuple[str, Opti
 def parse_cip_route(path: Union[str, List[str]], auto_slot: bool = False) -> List[PortSegment]:
     try:
         if isinstance(path, str):
-            path = path.replace("\\", "/")
+            path = path.replace("\\", "/").replace(",", "/")
             segments = path.split("/")
         else:
             segments = path
